@@ -432,7 +432,18 @@ func (e *enc) zeroOf(t types.Type) string {
 		e.useStruct(si)
 		return "(" + strings.Join(parts, " ") + ")"
 	case *types.Array:
-		return fmt.Sprintf("((as const %s) %s)", sortOf(t), e.zeroOf(u.Elem()))
+		z := e.zeroOf(u.Elem())
+		switch z {
+		case "0", "false", "0.0":
+			return fmt.Sprintf("((as const %s) %s)", sortOf(t), z)
+		}
+		// cvc5 only accepts literal values in constant arrays: use a named array with an axiom
+		n := "zeroarr_" + sortKey(sortOf(t))
+		if !e.declared[n] {
+			e.declare(n, sortOf(t))
+			e.assert(fmt.Sprintf("(forall ((i Int)) (! (= (select %s i) %s) :pattern ((select %s i))))", n, z, n))
+		}
+		return n
 	}
 	switch sortOf(t) {
 	case "Int":
@@ -564,7 +575,13 @@ func (e *enc) storeValue(st *State, addr, val string, t types.Type) {
 	}
 	s := sortOf(t)
 	if isLocalTerm(addr) {
-		st.cells[memCell(s, addr)] = fmt.Sprintf("(store %s %s %s)", e.heapAt(st, s, addr), addr, val)
+		nt := fmt.Sprintf("(store %s %s %s)", e.heapAt(st, s, addr), addr, val)
+		if len(nt) > 400 {
+			n := e.fresh("LMem_"+sortKey(s)+"_n", "(Array Ref "+s+")")
+			e.assert(eq(n, nt))
+			nt = n
+		}
+		st.cells[memCell(s, addr)] = nt
 		return
 	}
 	old := e.heap(st, s)
@@ -1265,6 +1282,46 @@ func (e *enc) loopHead(li *loopInfo, st *State) {
 						if gc, ok := e.ghostCells[cl.name]; ok {
 							st.cells[gc.cell] = e.fresh(gc.cell+"_"+tag, gc.sort)
 							st.cells[gc.cell+"_set"] = e.fresh(gc.cell+"_set_"+tag, "Bool")
+						}
+					}
+				}
+			}
+		}
+	}
+	if e.c != nil {
+		hv := func(name string) {
+			if gc, ok := e.ghostCells[name]; ok {
+				st.cells[gc.cell] = e.fresh(gc.cell+"_"+tag, gc.sort)
+				if _, has := e.ghostCells[name+"_set"]; has {
+					st.cells[gc.cell+"_set"] = e.fresh(gc.cell+"_set_"+tag, "Bool")
+				}
+			}
+		}
+		for _, b := range sortedBlocks(li.blocks) {
+			for _, ins := range b.Instrs {
+				switch x := ins.(type) {
+				case *ssa.Send:
+					name := e.valText(x.Chan)
+					for _, cl := range e.c.calls[fmt.Sprintf("send:%s#%d", name, e.sendOrdinal(x.Pos(), name))] {
+						if cl.kind == "bind" {
+							hv(cl.name)
+						}
+					}
+				case *ssa.Select:
+					for _, s := range x.States {
+						name := e.valText(s.Chan)
+						if s.Dir == types.RecvOnly {
+							for _, cl := range e.c.calls["recv:"+name] {
+								if cl.kind == "flag" {
+									hv(cl.name)
+								}
+							}
+						} else {
+							for _, cl := range e.c.calls[fmt.Sprintf("send:%s#%d", name, e.sendOrdinal(s.Pos, name))] {
+								if cl.kind == "bind" {
+									hv(cl.name)
+								}
+							}
 						}
 					}
 				}
